@@ -69,6 +69,14 @@ func runC16(r *rt.Runner) {
 			c.Violation(fmt.Sprintf("ToUnicode:%s:%t", name, dingbats),
 				fmt.Sprintf("ToUnicode(%q, %t) = %s, AGL specification gives %s", name, dingbats, fmtRunes(got), fmtRunes(want)), "")
 		}
+		// the result belongs to the caller: writing into it (reversing
+		// right-to-left text in place, say) must not reach any later call
+		for i := range got {
+			got[i] = 0xFFFD
+		}
+		if cap(got) > len(got) {
+			got = append(got, 0xFFFD)
+		}
 	}
 
 	// (a) round trip over all scalar values, in blocks of 4096
@@ -127,6 +135,20 @@ func runC16(r *rt.Runner) {
 				checkTU(c, n, false)
 				if len(agl.GlyphList[n]) > 1 {
 					c.Count("multi-code glyph list entries")
+				}
+			}
+			// once more, after the first results were written into; also as the
+			// first and as a later component, and with a suffix
+			for _, n := range agl.GLNames[i:min(i+128, len(agl.GLNames))] {
+				if n == "Tcommaaccent" || n == "tcommaaccent" {
+					continue
+				}
+				checkTU(c, n, false)
+				if len(agl.GlyphList[n]) > 1 {
+					checkTU(c, n+".alt", false)
+					checkTU(c, n+"_A", false)
+					checkTU(c, "A_"+n, false)
+					checkTU(c, n, false)
 				}
 			}
 		})
@@ -207,6 +229,22 @@ func runC16(r *rt.Runner) {
 				}
 			}
 		}
+		for n := 1; n <= 20; n++ {
+			// uni components of 1..20 groups (4 to 80 digits), well-formed and with one bad group
+			s, bad := "uni", "uni"
+			for q := 0; q < n; q++ {
+				s += fmt.Sprintf("%04X", 0x41+q)
+				if q == n-1 {
+					bad += "D800"
+				} else {
+					bad += fmt.Sprintf("%04X", 0x41+q)
+				}
+			}
+			for _, nm := range []string{s, bad, s + ".alt", "A_" + s, s + "_B", s + "0"} {
+				checkTU(c, nm, false)
+				checkTU(c, nm, true)
+			}
+		}
 		for _, s := range []string{"", ".", "_", "__", "u", "un", "uni", "u_", "uni_", ".notdef", ".null", "a.", "_a", "a_", "a__b", "uni.", "u.1234",
 			"uni0041.sc", "A.sc_B.alt", "A_B.alt_C", "unknown", "unknown_A_unknown", "u12345678", "uniD83DDE00", "uD83D", "u1F600", "u01F600"} {
 			checkTU(c, s, false)
@@ -239,6 +277,9 @@ func runC16(r *rt.Runner) {
 						parts = append(parts, fmt.Sprintf("uni%04X", rng.IntN(0x10000)))
 					case 6:
 						n := 1 + rng.IntN(3)
+						if rng.IntN(4) == 0 {
+							n = 4 + rng.IntN(12) // long components: the name length limit of IsValid is not a limit of the mapping
+						}
 						s := "uni"
 						for q := 0; q < n; q++ {
 							s += fmt.Sprintf("%04X", rng.IntN(0x10000))
